@@ -1524,6 +1524,22 @@ def gen_hostile_cases(seed, count):
                     toks.append(r.choice(codes) if x < 0.8 or not codes else r.choice(INTS + [c0 + 1 for c0 in codes]))
                 op(('parse 0 %s %s 15 %s' % (r.choice(['user', 'user', 'null']), r.choice(['user', 'user', 'null']), ' '.join(map(str, toks)))).strip())
             op('free 0')
+        elif kind < 0.803:
+            # more than a thousand dynamic-lookahead contexts on one object (the tables that number
+            # them have to grow): X predicted in the context {ti} for every i
+            k = r.choice([1030, 1100, 1300])
+            terms = [('t%d' % j, 10 + j) for j in range(k)] + [('x', 5)]
+            # (flat: `S : I S | I ; I : ti X ti` -- a chain of k nonterminals would cost the list-based
+            # analysis of the judge k rounds)
+            rules = [('S', None, 0, ['I', 'S'], None), ('S', None, 0, ['I'], None)] + \
+                    [('I', None, 0, ['t%d' % j, 'X', 't%d' % j], None) for j in range(k)] + [('X', None, 0, ['x'], None)]
+            g = Grammar(terms, rules, True)
+            c += g.text(0)
+            op('create 0'); op('def 0 0'); op('set 0 rec 0'); op('set 0 la 2')
+            toks = [cd for j in range(k) for cd in (10 + j, 5, 10 + j)]
+            op('parse 0 user user 0 %s' % ' '.join(map(str, toks)))
+            op('set 0 la 1'); op('parse 0 user user 0 %s' % ' '.join(map(str, toks[:30])))
+            op('free 0')
         else:
             # many symbols with sparse / dense codes
             k = r.choice([70, 130, 260])
